@@ -353,10 +353,8 @@ func (r *Run) Apply(op Op) *Step {
 		case OpVisualize:
 			var buf bytes.Buffer
 			var vo []dig.VisualizeOption
-			if op.VisErr > 0 && op.VisErr <= len(r.Steps)-1 {
-				if e := r.Steps[op.VisErr-1].V.Err; e != nil {
-					vo = append(vo, dig.VisualizeError(e))
-				}
+			if k := r.VisErrStep(op); k >= 0 {
+				vo = append(vo, dig.VisualizeError(r.Steps[k].V.Err))
 			}
 			err = dig.Visualize(r.C, &buf, vo...)
 			st.Dot = buf.String()
@@ -383,6 +381,23 @@ func (r *Run) Apply(op Op) *Step {
 		}
 	}
 	return st
+}
+
+// VisErrStep resolves which step's error an OpVisualize passes to
+// dig.VisualizeError: VisErr>0 names step VisErr-1, VisErr==-1 the most recent
+// failed Invoke; -1 if none.
+func (r *Run) VisErrStep(op Op) int {
+	if op.VisErr > 0 && op.VisErr <= len(r.Steps) && r.Steps[op.VisErr-1].V.Err != nil {
+		return op.VisErr - 1
+	}
+	if op.VisErr == -1 {
+		for k := len(r.Steps) - 1; k >= 0; k-- {
+			if st := r.Steps[k]; st.Op.Kind == OpInvoke && st.V.Err != nil {
+				return k
+			}
+		}
+	}
+	return -1
 }
 
 // Events returns the execution log slice of a step.
